@@ -26,6 +26,7 @@ import (
 	"io"
 	"net"
 	"reflect"
+	"runtime"
 	"sort"
 	"strconv"
 	"strings"
@@ -51,6 +52,9 @@ func init() { props["C03"] = runC03 }
 
 const c3Timeout = 5 * time.Second
 
+// time the in-memory session needs to write an empty ACK on the pooled set-up (a slow link)
+const c3AckWrite = 300 * time.Microsecond
+
 var c3TokA = []byte{0x42}
 var c3TokB = []byte{0x42, 0x2f, 0xf4, 0x42, 0x2f, 0xf4, 0x42, 0xb2} // same CRC-64/ISO as c3TokA
 
@@ -64,7 +68,7 @@ type c3Start struct {
 }
 
 type c3Op struct {
-	kind  byte // 'S' start, 'G' burst of starts, 'A' empty ack, 'R' response, 'F' foreign-token response, 'C' cancel
+	kind  byte // 'S' start, 'G' burst of starts, 'B' burst released through the token-table barrier, 'A' empty ack, 'R' response, 'F' foreign-token response, 'C' cancel
 	st    []c3Start
 	cid   int
 	rid   int
@@ -75,7 +79,7 @@ type c3Op struct {
 }
 
 type c3Script struct {
-	tr  string // u | ub | t | tb
+	tr  string // u | ub | t | tb | up (udp, message pool on, slow empty-ACK writes, responses released at once)
 	ops []c3Op
 }
 
@@ -103,7 +107,7 @@ func (s c3Start) String() string {
 
 func (o c3Op) String() string {
 	switch o.kind {
-	case 'S', 'G':
+	case 'S', 'G', 'B':
 		parts := make([]string, len(o.st))
 		for i, s := range o.st {
 			parts[i] = s.String()
@@ -121,16 +125,18 @@ func (o c3Op) String() string {
 	return "?"
 }
 
+// descriptor "tr|ev ev ev": bin/check shrinks a history written this way by dropping events
+// (the older form "tr ev ev ev" is still accepted by the parser)
 func (s c3Script) String() string {
-	parts := []string{s.tr}
+	parts := make([]string, 0, len(s.ops))
 	for _, o := range s.ops {
 		parts = append(parts, o.String())
 	}
-	return strings.Join(parts, " ")
+	return s.tr + "|" + strings.Join(parts, " ")
 }
 
 func parseC3Script(txt string) (c3Script, error) {
-	f := strings.Fields(txt)
+	f := strings.Fields(strings.Replace(txt, "|", " ", 1))
 	if len(f) == 0 {
 		return c3Script{}, errors.New("empty script")
 	}
@@ -140,7 +146,7 @@ func parseC3Script(txt string) (c3Script, error) {
 		o := c3Op{kind: w[0]}
 		body := w[1:]
 		switch o.kind {
-		case 'S', 'G':
+		case 'S', 'G', 'B':
 			for _, p := range strings.Split(body, "+") {
 				q := strings.Split(p, ":")
 				if len(q) != 3 || len(q[2]) != 2 {
@@ -181,6 +187,7 @@ type c3Conn interface {
 	Get(ctx context.Context, path string, opts ...message.Option) (*pool.Message, error)
 	Post(ctx context.Context, path string, contentFormat message.MediaType, payload io.ReadSeeker, opts ...message.Option) (*pool.Message, error)
 	AcquireMessage(ctx context.Context) *pool.Message
+	ReleaseMessage(m *pool.Message)
 }
 
 type c3Ret struct {
@@ -208,6 +215,9 @@ type c3Call struct {
 type c3Run struct {
 	sc        c3Script
 	tcp, bw   bool
+	pooled    bool // "up": message pool on, empty ACKs take c3AckWrite to write, callers release their response at once
+	piled     int  // barrier bursts whose callers were all seen queued on the token table's lock (or back)
+	unpiled   int  // ... released after the time limit instead
 	sess      *memSession
 	ucc       *client.Conn
 	tcc       *tcpclient.Conn
@@ -232,6 +242,7 @@ var c3Hangs int
 func (r *c3Run) setup() {
 	r.tcp = r.sc.tr[0] == 't'
 	r.bw = strings.HasSuffix(r.sc.tr, "b")
+	r.pooled = r.sc.tr == "up"
 	r.processed = make(chan struct{}, 4096)
 	r.calls = map[int]*c3Call{}
 	r.reg = map[uint64]int{}
@@ -241,6 +252,9 @@ func (r *c3Run) setup() {
 		return
 	}
 	r.sess = newMemSession(64 * 1024)
+	if r.pooled {
+		r.sess.emptyAckDelay = c3AckWrite
+	}
 	cfg := client.DefaultConfig
 	cfg.Handler = func(_ *responsewriter.ResponseWriter[*client.Conn], _ *pool.Message) {
 		r.mu.Lock()
@@ -253,6 +267,9 @@ func (r *c3Run) setup() {
 	cfg.TransmissionNStart = 1000
 	cfg.TransmissionAcknowledgeTimeout = time.Hour
 	cfg.MessagePool = pool.New(0, 0)
+	if r.pooled {
+		cfg.MessagePool = pool.New(1024, 2048)
+	}
 	cfg.GetMID = func() int32 { return 0x2000 }
 	cfg.ProcessReceivedMessage = func(req *pool.Message, cc *client.Conn, h config.HandlerFunc[*client.Conn]) {
 		cc.ProcessReceivedMessageWithHandler(req, h)
@@ -437,7 +454,12 @@ func (r *c3Run) launch(s c3Start, gate chan struct{}) {
 	path := fmt.Sprintf("/c%d", s.cid)
 	var req *pool.Message
 	if s.how == 'd' {
-		req = r.conn.AcquireMessage(ctx)
+		if r.pooled {
+			// a fresh message: the pool serves the receive path only
+			req = pool.NewMessage(ctx)
+		} else {
+			req = r.conn.AcquireMessage(ctx)
+		}
 		req.SetCode(codes.GET)
 		req.SetToken(s.tok)
 		if s.con {
@@ -480,6 +502,10 @@ func (r *c3Run) launch(s c3Start, gate chan struct{}) {
 			ret.rid = int(body[2])<<8 | int(body[3])
 		} else {
 			ret.forc, ret.rid = 9999, 9999
+		}
+		if r.pooled {
+			// "caller is responsible to release request and response": done as soon as the response is read
+			r.conn.ReleaseMessage(resp)
 		}
 	}()
 }
@@ -616,11 +642,44 @@ func (r *c3Run) item(kind string, rets []c3Ret, fell bool) {
 
 func (r *c3Run) doStart(o c3Op) {
 	gate := make(chan struct{})
+	var rets []c3Ret
+	var release func()
+	if o.kind == 'B' {
+		if release = r.holdTable(); release == nil {
+			return
+		}
+	}
 	for _, s := range o.st {
 		r.launch(s, gate)
 	}
 	close(gate)
-	var rets []c3Ret
+	if release != nil {
+		// every caller is queued on the table's lock inside LoadOrStore, or has already come back
+		// (block-wise refuses an equal token before the table is reached)
+		deadline := time.Now().Add(2 * time.Second)
+		buf := make([]byte, 1<<20)
+		ok := false
+		for !ok && time.Now().Before(deadline) {
+			r.collect(&rets)
+			back := 0
+			for _, s := range o.st {
+				if r.calls[s.cid].returned {
+					back++
+				}
+			}
+			if back+c3QueuedOnTable(buf) >= len(o.st) {
+				ok = true
+			} else {
+				runtime.Gosched()
+			}
+		}
+		if ok {
+			r.piled++
+		} else {
+			r.unpiled++
+		}
+		release()
+	}
 	r.waitFor(&rets, func() bool {
 		for _, s := range o.st {
 			c := r.calls[s.cid]
@@ -658,6 +717,51 @@ func (r *c3Run) doStart(o c3Op) {
 		}
 		r.item(fmt.Sprintf("KStart %d %s %s", r.emitID(s.cid), coqBytes(tok), coqBool(r.tcp || !s.con)), mine, false)
 	}
+}
+
+// holdTable parks a goroutine inside the token table's write-locked section (verif hook
+// VerifTokenTableBarrier: ReplaceWithFunc on a key nobody uses, table left unchanged); the returned
+// function lets it go.
+func (r *c3Run) holdTable() func() {
+	entered := make(chan struct{})
+	rel := make(chan struct{})
+	done := make(chan struct{})
+	const key = 0x0BADBA770BADBA77
+	go func() {
+		defer close(done)
+		defer func() { _ = recover() }()
+		if r.tcp {
+			r.tcc.VerifTokenTableBarrier(key, func() { close(entered) }, rel)
+		} else {
+			r.ucc.VerifTokenTableBarrier(key, func() { close(entered) }, rel)
+		}
+	}()
+	select {
+	case <-entered:
+	case <-time.After(c3Timeout):
+		r.bad = "the token table's lock was not obtained"
+		close(rel)
+		return nil
+	}
+	return func() { close(rel); <-done }
+}
+
+// c3QueuedOnTable counts the goroutines that wait for a lock inside pkg/sync.Map.LoadOrStore called from doInternal
+func c3QueuedOnTable(buf []byte) int {
+	n := runtime.Stack(buf, true)
+	cnt := 0
+	for _, g := range strings.Split(string(buf[:n]), "\n\n") {
+		nl := strings.IndexByte(g, '\n')
+		if nl < 0 {
+			continue
+		}
+		h := g[:nl]
+		if (strings.Contains(h, "[sync.") || strings.Contains(h, "[semacquire")) &&
+			strings.Contains(g, ").LoadOrStore(") && strings.Contains(g, ").doInternal(") {
+			cnt++
+		}
+	}
+	return cnt
 }
 
 func (r *c3Run) doResp(o c3Op) {
@@ -717,7 +821,7 @@ func (r *c3Run) run() string {
 			break
 		}
 		switch o.kind {
-		case 'S', 'G':
+		case 'S', 'G', 'B':
 			r.doStart(o)
 		case 'A':
 			c := r.calls[o.cid]
@@ -779,9 +883,9 @@ func (r *c3Run) run() string {
 	return "Case [" + strings.Join(r.items, "; ") + "]"
 }
 
-func runC3Script(sc c3Script) string {
+func runC3Script(sc c3Script) (string, *c3Run) {
 	r := &c3Run{sc: sc}
-	return r.run()
+	return r.run(), r
 }
 
 // ---------- generators ----------
@@ -1027,20 +1131,152 @@ func c3GenCollision(rng *Rng, tr string, variant int) c3Script {
 	return b.sc
 }
 
+// distinct tokens that a careless table key could take for equal: they differ by trailing / leading
+// zero bytes, by length only, by one byte, by byte order, or one is a prefix of the other
+var c3NearPairs = [][2]string{
+	{"01", "0100"},
+	{"01", "0100000000000000"},
+	{"01", "0001"},
+	{"0000000000000001", "01"},
+	{"00", "0000"},
+	{"00", "0000000000000000"},
+	{"7f", "7f7f"},
+	{"0102", "010203"},
+	{"0102", "0201"},
+	{"01", "02"},
+	{"0102030405060708", "0102030405060709"},
+	{"8102030405060708", "0102030405060708"},
+	{"ffffffffffffff", "ffffffffffffffff"},
+	{"a5", "a500a5"},
+}
+
+// two distinct but similar tokens: both outstanding and answered in the reverse order, a response with the
+// one while only the other is outstanding, one after the other, a late response for a cancelled call
+func c3GenNear(rng *Rng, tr string, pair int, variant int) c3Script {
+	b := newC3B(rng, tr)
+	x, y := c3Unhex(c3NearPairs[pair][0]), c3Unhex(c3NearPairs[pair][1])
+	if variant&1 == 1 {
+		x, y = y, x
+	}
+	switch (variant >> 1) % 4 {
+	case 0: // both outstanding, answered in the reverse order: both complete with their own response
+		s0 := b.start(x, 'd', rng.Chance(50))
+		b.add(c3Op{kind: 'S', st: []c3Start{s0}})
+		s1 := b.start(y, 'd', rng.Chance(50))
+		b.add(c3Op{kind: 'S', st: []c3Start{s1}})
+		b.answer(s1.cid)
+		b.answer(s0.cid)
+	case 1: // a response carrying y while only x is outstanding goes to the default handler; x then completes
+		s0 := b.start(x, 'd', rng.Chance(50))
+		b.add(c3Op{kind: 'S', st: []c3Start{s0}})
+		if s0.con && b.udp() {
+			b.add(c3Op{kind: 'A', cid: s0.cid})
+			b.ackd[s0.cid] = true
+		}
+		b.rid++
+		b.add(c3Op{kind: 'F', rid: b.rid, tok: y, rkind: 'n', slot: b.newSlot()})
+		b.answer(s0.cid)
+	case 2: // the call with y gives up; its late response arrives while x is outstanding
+		s0 := b.start(y, 'd', true)
+		b.add(c3Op{kind: 'S', st: []c3Start{s0}})
+		if b.udp() {
+			b.add(c3Op{kind: 'A', cid: s0.cid})
+		}
+		b.add(c3Op{kind: 'C', cid: s0.cid})
+		s1 := b.start(x, 'd', rng.Chance(50))
+		b.add(c3Op{kind: 'S', st: []c3Start{s1}})
+		b.resp(s0.cid, 'n', b.newSlot())
+		b.answer(s1.cid)
+	default: // both tokens, each twice, reach the token table together: one call of each is accepted
+		st := []c3Start{b.start(x, 'd', true), b.start(y, 'd', true), b.start(x, 'd', true), b.start(y, 'd', true)}
+		b.add(c3Op{kind: 'B', st: st})
+		for i := len(st) - 1; i >= 0; i-- {
+			b.resp(st[i].cid, 'p', 0)
+		}
+	}
+	return b.sc
+}
+
+// calls with one token that reach the token table at the same instant: a goroutine holds the table's lock
+// while 2-4 callers (and sometimes a bystander with another token) queue up inside LoadOrStore
+func c3GenBarrier(rng *Rng, tr string, k int, variant int) c3Script {
+	b := newC3B(rng, tr)
+	t := b.tok()
+	var st []c3Start
+	for i := 0; i < k; i++ {
+		st = append(st, b.start(t, 'd', variant%2 == 0))
+	}
+	switch variant % 3 {
+	case 1:
+		st = append(st, b.randStart())
+	case 2:
+		// a second group with another token in the same burst
+		t2 := b.tok()
+		st = append(st, b.start(t2, 'd', true), b.start(t2, 'd', true))
+	}
+	b.add(c3Op{kind: 'B', st: st})
+	// every member is answered; only the accepted ones are on the wire, the others are skipped by the runner
+	for _, s := range st {
+		if b.udp() && b.con[s.cid] {
+			b.resp(s.cid, 'p', 0)
+		} else {
+			b.resp(s.cid, 'n', b.newSlot())
+		}
+	}
+	// the token is free again: a second round through the barrier
+	if variant%4 == 3 {
+		st2 := []c3Start{b.start(t, 'd', true), b.start(t, 'd', true)}
+		b.add(c3Op{kind: 'B', st: st2})
+		for _, s := range st2 {
+			b.resp(s.cid, 'n', b.newSlot())
+		}
+	}
+	return b.sc
+}
+
+// sequential exchanges on a connection with the message pool on, a slow write of the empty ACK and
+// callers that release the response at once; mostly separate responses (empty ACK, then a confirmable
+// response which the receive path acknowledges)
+func c3GenSeparate(rng *Rng, n int) c3Script {
+	b := newC3B(rng, "up")
+	for i := 0; i < n; i++ {
+		how := byte('d')
+		if rng.Chance(15) {
+			how = 'g'
+		}
+		s := b.start(b.tok(), how, true)
+		b.add(c3Op{kind: 'S', st: []c3Start{s}})
+		switch v := rng.Intn(10); {
+		case v < 7:
+			b.add(c3Op{kind: 'A', cid: s.cid})
+			b.resp(s.cid, 'c', b.newSlot())
+		case v == 7:
+			b.resp(s.cid, 'c', b.newSlot()) // the response overtakes the acknowledgement
+			b.add(c3Op{kind: 'A', cid: s.cid})
+		case v == 8:
+			b.resp(s.cid, 'p', 0)
+		default:
+			b.add(c3Op{kind: 'A', cid: s.cid})
+			b.resp(s.cid, 'n', b.newSlot())
+		}
+	}
+	return b.sc
+}
+
 func runC03(a runArgs) error {
 	e := NewEmitter("C03", "Token.Run")
 	e.Preamble = "From GoCoap Require Import Token.Model Token.Spec."
 	e.ShardSize = 120
-	e.Rule = "event scripts on a real udp/client.Conn (in-memory session) and tcp/client.Conn (net.Pipe), block-wise on/off: 1-8 calls (Do with caller-chosen tokens, Get/Post with library tokens; CON/NON) issued one by one or as a burst of goroutines released together, answered in a random order piggybacked / after an empty ACK / before the ACK / as separate CON or NON, with retransmitted and re-sent duplicates, foreign tokens, cancellations, equal tokens (second call while the first is outstanding, bursts with one token, re-use after completion) and the CRC-64-colliding token pair. Distinct = distinct script; non-trivial = at least two calls or one duplicate / foreign / cancel / equal-token event."
+	e.Rule = "event scripts on a real udp/client.Conn (in-memory session) and tcp/client.Conn (net.Pipe), block-wise on/off: 1-8 calls (Do with caller-chosen tokens, Get/Post with library tokens; CON/NON) issued one by one or as a burst of goroutines released together, answered in a random order piggybacked / after an empty ACK / before the ACK / as separate CON or NON, with retransmitted and re-sent duplicates, foreign tokens, cancellations, equal tokens (second call while the first is outstanding, bursts with one token, re-use after completion), the CRC-64-colliding token pair, 14 pairs of similar but distinct tokens (differing by trailing / leading zero bytes, length, one byte, byte order; both outstanding, foreign response, late response of a cancelled call, mixed burst), bursts of 2-4 calls with one token released together at the token table (a goroutine holds the table's lock until every caller is queued inside LoadOrStore), and sequential separate-response exchanges on a pooled connection whose empty-ACK write takes 300 us while the caller releases its response at once. Distinct = distinct script; non-trivial = at least two calls or one duplicate / foreign / cancel / equal-token event."
 	emit := func(sc c3Script, fam string) {
 		if c3Hangs >= 3 && a.only == "" {
 			return // enough hung cases to report; do not spend the watchdog time on every further case
 		}
-		txt := runC3Script(sc)
+		txt, run := runC3Script(sc)
 		nt := false
 		ncalls := 0
 		for _, o := range sc.ops {
-			if o.kind == 'S' || o.kind == 'G' {
+			if o.kind == 'S' || o.kind == 'G' || o.kind == 'B' {
 				ncalls += len(o.st)
 			}
 			if o.kind == 'F' || o.kind == 'C' {
@@ -1050,7 +1286,14 @@ func runC03(a runArgs) error {
 		if ncalls >= 2 {
 			nt = true
 		}
-		e.Add(txt, sc.String(), nt, "fam-"+fam, "tr-"+sc.tr, fmt.Sprintf("calls%d", ncalls))
+		hist := []string{"fam-" + fam, "tr-" + sc.tr, fmt.Sprintf("calls%d", ncalls)}
+		for i := 0; i < run.piled; i++ {
+			hist = append(hist, "barrier-all-callers-queued")
+		}
+		for i := 0; i < run.unpiled; i++ {
+			hist = append(hist, "barrier-released-after-time-limit")
+		}
+		e.Add(txt, sc.String(), nt, hist...)
 	}
 	if a.only != "" {
 		sc, err := parseC3Script(a.only)
@@ -1062,9 +1305,34 @@ func runC03(a runArgs) error {
 	}
 	rng := NewRng(a.seed)
 	trs := []string{"u", "ub", "t", "tb"}
-	nPerm, nEq := 14, 4
+	nPerm, nEq, nBar, nSep := 14, 4, 4, 16
 	if a.tier == "thorough" {
-		nPerm, nEq = 600, 100
+		nPerm, nEq, nBar, nSep = 600, 100, 40, 200
+	}
+	// The deterministic families come first (a failure found there is the one reported), on a stream of their own.
+	rng2 := NewRng(a.seed ^ 0xC03C03C03)
+	// always run, both tiers: calls with one token released together at the token table ...
+	for _, tr := range trs {
+		for k := 2; k <= 4; k++ {
+			for v := 0; v < nBar; v++ {
+				emit(c3GenBarrier(rng2.Fork(), tr, k, v), "barrier")
+			}
+		}
+	}
+	// ... similar-but-distinct token pairs ...
+	for ti, tr := range trs {
+		for p := range c3NearPairs {
+			for v := 0; v < 8; v++ {
+				if a.tier != "thorough" && len(tr) == 2 && (v>>1)%2 != (p+ti)%2 {
+					continue // block-wise set-ups: half of the variants per pair in the quick tier
+				}
+				emit(c3GenNear(rng2.Fork(), tr, p, v), "near")
+			}
+		}
+	}
+	// ... and sequential separate-response exchanges with pooling, a slow ACK write and prompt release
+	for i := 0; i < nSep; i++ {
+		emit(c3GenSeparate(rng2.Fork(), 6+4*(i%4)), "separate")
 	}
 	for _, tr := range trs {
 		for n := 1; n <= 8; n++ {
